@@ -1,6 +1,7 @@
 package c06
 
 import (
+	"bytes"
 	"context"
 	"encoding/binary"
 	"fmt"
@@ -77,6 +78,13 @@ func TestSweep(t *testing.T) {
 			sweep(cseeds[i], 60, func(m []byte) { oracleHTTPClient(t, csels[i], 0, m) })
 		}
 	})
+	run("http-origin", func(t *testing.T) {
+		// round 6: the well-formed origin replies (plain 200, 100 + chunked with trailer, 301 with Location), damaged at every offset
+		forms, origins := originSeeds()
+		for _, i := range []int{0, 6, 8} {
+			sweep(origins[i], 84, func(m []byte) { oracleHTTPOrigin(t, forms[i], 0, m) })
+		}
+	})
 	run("ss2022-server", func(t *testing.T) {
 		sels, seeds := ssServerSeeds()
 		n := 0
@@ -116,6 +124,37 @@ func TestSweep(t *testing.T) {
 		sels, seeds := packetSeeds()
 		for i := 0; i < 8 && i < len(seeds); i++ {
 			sweep(seeds[i], 40, func(m []byte) { oraclePacket(t, sels[i], m) })
+		}
+	})
+	run("packets-reused", func(t *testing.T) {
+		// Round 6: every datagram of 0..8 bytes (shortDatagrams) in a buffer that still holds an earlier valid packet, for every
+		// unpacker of the plain-text UDP protocols (socks5 / ss-none / direct; server and client side; reply from the upstream and
+		// from its IPv4-mapped form) and every kind of earlier packet (IPv4, 255-byte name, IPv6 target). Then the valid packets
+		// themselves and their every truncation in the same kind of buffer.
+		recPacket.Require("reused:short-datagrams", "reused:rejected", "reused:accepted",
+			"reused:socks5/server", "reused:none/server", "reused:direct/server", "reused:socks5/client", "reused:none/client", "reused:direct/client")
+		shorts := shortDatagrams()
+		for _, base := range []uint8{0, 1, 4, 5, 4 | 8, 5 | 8} {
+			for i, d := range shorts {
+				if len(d) <= 3 || len(d) >= 5 { // the earlier packet's address type matters where the datagram ends inside header or address
+					for v := uint8(0); v < 3; v++ {
+						oraclePacket(t, base|32|v<<6, d)
+					}
+				} else {
+					oraclePacket(t, base|32|uint8(i%3)<<6, d)
+				}
+			}
+		}
+		for _, base := range []uint8{2, 2 | 16, 6} { // direct: the datagram is the payload; one datagram of every length
+			for l := 0; l <= 8; l++ {
+				oraclePacket(t, base|32|uint8(l%3)<<6, bytes.Repeat([]byte{byte(l)}, l))
+			}
+		}
+		sels, seeds := packetSeeds()
+		for i := 0; i < 12 && i < len(seeds); i++ {
+			for l := 0; l <= len(seeds[i]); l++ {
+				oraclePacket(t, sels[i]|32|uint8(l%3)<<6, seeds[i][:l])
+			}
 		}
 	})
 	run("ss2022-udp-established", TestSweepEstablished)
